@@ -1,4 +1,5 @@
 import GeffProofs.StoreGuardGen
+import GeffProofs.StoreGuardRead
 import GeffProofs.KVCleanup
 /-! # C06 (and the clean-up clause of C05) on the guard layer as it is written now
 
@@ -167,5 +168,71 @@ example : Prog.final (deleteGeff exDocs .memory .v3) exV3 =
     [(⟨[], .json⟩, .root none "{}"), (⟨["raw"], .json⟩, .raw "r")] := by decide +kernel
 /-- an unexpanded home-relative location is outside `Supported`: `delete_geff` does not get through -/
 example : errOf (deleteGeff exDocs (.str .home) .v2 []).val = some (.other "Unmodelled") := by decide +kernel
+
+
+/-! ### the read-side entry functions: `_detect_zarr_spec_version`, `open_storelike` -/
+
+open Gen.StoreGuard (detectZarrSpecVersion openStorelike)
+
+example : Readable (.str .no) ∧ Readable (.path .inner) ∧ Readable .memory ∧ Readable .localStore ∧
+    Readable (.objWithPath true false) := by
+  refine ⟨⟨rfl, rfl⟩, ⟨rfl, rfl⟩, ⟨rfl, rfl⟩, ⟨rfl, rfl⟩, ⟨rfl, rfl⟩⟩
+
+/-- **`_detect_zarr_spec_version` = `detectSpec`** on every store state, for every store-like argument
+(str, Path, MemoryStore, LocalStore, other store objects) given as an expanded location: it never
+raises, and returns what `detectSpec` says -/
+theorem detectZarrSpecVersion_eq_spec (d : Docs) (s : StoreRef) (kv : KV) (hs : Readable s) :
+    detectZarrSpecVersion d s kv = ⟨[], .ok (detectSpec s kv)⟩ := detect_eq d s kv hs
+
+/-- which document decides: for a `str`/`Path`, `zarr.json` alone decides 3 — also when `.zgroup` is
+there as well (both) —, otherwise `.zgroup` or `.zarray` decide 2, neither gives `None`; for a store
+object the answer is the format of the root group zarr opens (3 preferred), `None` without one; and
+on every kind of argument the answer agrees with the format `zarr.open_group` detects whenever
+there is a root group -/
+theorem detectSpec_cases (s : StoreRef) (kv : KV) :
+    (isStrOrPath s = true → has kv ⟨[], .json⟩ = true → detectSpec s kv = some 3) ∧
+    (isStrOrPath s = true → has kv ⟨[], .json⟩ = false →
+        (has kv ⟨[], .zgroup⟩ = true ∨ has kv ⟨[], .zarray⟩ = true) → detectSpec s kv = some 2) ∧
+    (isStrOrPath s = true → has kv ⟨[], .json⟩ = false → has kv ⟨[], .zgroup⟩ = false →
+        has kv ⟨[], .zarray⟩ = false → detectSpec s kv = none) ∧
+    (isStrOrPath s = false → detectSpec s kv = (rootGroupFmt kv).map fmtNum) ∧
+    (∀ f, rootGroupFmt kv = some f → detectSpec s kv = some (fmtNum f)) := by
+  refine ⟨?_, ?_, ?_, ?_, ?_⟩
+  · intro h1 h2; simp [detectSpec, h1, h2]
+  · intro h1 h2 h3; rcases h3 with h3 | h3 <;> simp [detectSpec, h1, h2, h3]
+  · intro h1 h2 h3 h4; simp [detectSpec, h1, h2, h3, h4]
+  · intro h1; simp [detectSpec, h1]
+  · intro f hf
+    unfold rootGroupFmt at hf
+    cases hp : isStrOrPath s <;> cases hj : has kv ⟨[], .json⟩ <;> cases hg : has kv ⟨[], .zgroup⟩ <;>
+      simp [hj, hg] at hf <;> subst hf <;> simp [detectSpec, rootGroupFmt, hp, hj, hg, fmtNum]
+
+/-- `_detect_zarr_spec_version` performs **no store mutation** — on every argument and store state,
+without hypothesis -/
+theorem detectZarrSpecVersion_read_only (d : Docs) (s : StoreRef) (kv : KV) :
+    (detectZarrSpecVersion d s kv).ops = [] ∧ Prog.final (detectZarrSpecVersion d s) kv = kv := by
+  have h := detect_ops d s kv
+  exact ⟨h, by rw [Prog.final, h]; rfl⟩
+
+/-- **`open_storelike` = `openSpec`**: `FileNotFoundError` for a `str`/`Path` location that does not
+exist, the root group (zarr format detected) when there is one, `ValueError` when the store holds no
+root group — on every store state, for every store-like argument -/
+theorem openStorelike_eq_spec (d : Docs) (s : StoreRef) (kv : KV) (hs : Readable s) :
+    openStorelike d s kv = ⟨[], openSpec s kv⟩ := openStorelike_eq d s kv hs
+
+/-- **`open_storelike` is read-only** — the entry of every read-side function performs no store
+mutation, on every argument and every store state (no hypothesis): the store afterwards is the
+store before.  (Stated on the generated function so that C18 can import it.) -/
+theorem openStorelike_read_only (d : Docs) (s : StoreRef) (kv : KV) :
+    (openStorelike d s kv).ops = [] ∧ Prog.final (openStorelike d s) kv = kv := by
+  have h := openStorelike_ops d s kv
+  exact ⟨h, by rw [Prog.final, h]; rfl⟩
+
+/-- a format-3 geff in a MemoryStore is opened as a format-3 group; an empty MemoryStore and a missing
+path are refused with the documented exceptions -/
+example : openStorelike exDocs .memory exV3 = ⟨[], .ok ⟨.memory, .v3⟩⟩ := by rfl
+example : errOf (openStorelike exDocs .memory []).val = some .valueError := by decide +kernel
+example : errOf (openStorelike exDocs (.path .no) []).val = some (.other "FileNotFoundError") := by decide +kernel
+example : detectZarrSpecVersion exDocs (.str .no) exV3 = ⟨[], .ok (some 3)⟩ := by rfl
 
 end GeffProps.C06Gen
